@@ -93,7 +93,9 @@ COLOURS = [({}, (0, 0, 0, 255), (255, 255, 255, 255)),
            (dict(dark='aliceblue', light=None), (240, 248, 255, 255), None),
            (dict(dark=None, light='aliceblue'), None, (240, 248, 255, 255)),
            (dict(dark='#0000ffcc', light='white'), (0, 0, 255, 204), (255, 255, 255, 255)),
-           (dict(dark='#808080', light='#fff'), (128, 128, 128, 255), (255, 255, 255, 255))]
+           (dict(dark='#808080', light='#fff'), (128, 128, 128, 255), (255, 255, 255, 255)),
+           # black / white modules on a transparent background (grey + alpha images)
+           (dict(light=None), (0, 0, 0, 255), None), (dict(dark='white', light=None), (255, 255, 255, 255), None), (dict(dark='#000', light=None), (0, 0, 0, 255), None)]
 
 
 def supports(kind, ckw):
